@@ -3,7 +3,7 @@
 to EVERY function of one source file at a time (scratch copy, removed afterwards) and run all 20 checks.  Any VIOLATION
 is a false alarm (name or spelling dependence of a rule); exit 2 means an anchor was tied to a spelling.
 
-usage: robust_sweep.py [rename|commute|reformat] [file ...]"""
+usage: robust_sweep.py [rename|commute|swapcmp|flipif|reformat] [file ...]"""
 import ast, os, shutil, subprocess, sys, tempfile
 from concurrent.futures import ThreadPoolExecutor
 from pathlib import Path
@@ -37,7 +37,8 @@ def one(f):
         n = 1
     else:
         for q in quals(ast.parse(src)):
-            s2 = (transforms.rename_locals if kind == "rename" else transforms.commute_mult)(s, q)
+            s2 = {"rename": transforms.rename_locals, "commute": transforms.commute_mult, "swapcmp": transforms.swap_compare,
+                  "flipif": transforms.flip_if}[kind](s, q)
             if s2 is not None:
                 s = s2
                 n += 1
